@@ -451,6 +451,50 @@ def t09_hhea2(run, fx):
              "%s:%s" % (b.file, b.line))
 
 
+# ---- T09-MAGIC: the sfnt version of a font that is written ---------------------------------------------------------------------------
+CFF_TAG, CFF2_TAG = 0x43464620, 0x43464632
+
+
+def t09_magic(run, fx):
+    rule = "T09-MAGIC"
+    run.rule(rule, "sfnt version of the fonts the library writes: 'OTTO' for fonts with CFF data, version 1 or 2, 0x00010000 / 'true' for TrueType outlines "
+                   "(OpenType, table directory). Every FontBuilder::new is given a constant, or a value whose decision - in the function and its closures - "
+                   "compares table tags with both 'CFF ' and 'CFF2' (sibling agreement: variations::instance writes 'OTTO' for CFF2)")
+    n = 0
+    for b in fx.bodies:
+        if b.exp:
+            continue
+        for bi, t in b.calls():
+            if not callee_is(t, "subset::FontBuilder::new"):
+                continue
+            n += 1
+            prov = sym.Prov(b)
+            a = sym.strip(prov.op(t["args"][0]))
+            if a[0] == "c" or a[0] == "uneval":
+                run.ok(rule, "%s: FontBuilder::new with a constant sfnt version" % b.root)
+                continue
+            consts = set()
+            for fb in fx.family(fx.by_dp.get(b.root_dp, b)) if hasattr(b, "root_dp") else fx.family(b):
+                for bj, blk in enumerate(fb.blocks):
+                    for st in blk["s"]:
+                        if st["k"] == "assign" and st["rv"]["k"] == "bin" and st["rv"]["bop"] in ("Eq", "Ne"):
+                            for o in (st["rv"]["a"], st["rv"]["b"]):
+                                if o.get("k") == "const" and isinstance(o.get("val"), int):
+                                    consts.add(o["val"])
+                    tt = blk["t"]
+                    if tt["k"] == "switch":
+                        for v, _ in tt["arms"]:
+                            if isinstance(v, int):
+                                consts.add(v)
+            if CFF_TAG in consts and CFF2_TAG in consts:
+                run.ok(rule, "%s: the sfnt version is decided on both 'CFF ' and 'CFF2'" % b.root)
+            else:
+                run.fail(rule, "magic:%s" % b.root, "%s chooses the sfnt version of the font it writes without looking at %s: a font with such outlines is written with the TrueType version"
+                         % (b.path, " and ".join(nm for nm, v in (("'CFF '", CFF_TAG), ("'CFF2'", CFF2_TAG)) if v not in consts)), b.loc(t))
+    if n == 0:
+        run.anchor_missing(rule, "FontBuilder::new calls")
+
+
 # ---- T09-ADD: a table handed to the builder is in the font -------------------------------------------------------------------------
 def _ok_blocks(b):
     out = []
@@ -527,6 +571,7 @@ def check(run, fx, tier, floors=True):
         import rules_C15
         rules_C15.c15_s(run, fx, floors)
     t09_prod(run, fx)
+    t09_magic(run, fx)
     if floors or any(b.root.endswith('FontBuilder::add_table_inner') for b in fx.bodies):
         t09_add(run, fx, floors)
     t09_order(run, fx)
